@@ -346,6 +346,88 @@ v("C17", "inline-invoker-wrong-opts", "intercept.go",
 	return intch.unaryInt(ctx, methodName, req, resp, cc, invoker, opts...)
 }""", "R2", "continuation", "sub-agent mutant C17-invoker-opts: literal forwards the outer opts, dropping the interceptor's")
 
+# ------------------------------------------------------------------ C08
+v("C08", "d13-any-error-is-success", "inprocgrpc/in_process.go",
+  """	if err != io.EOF {
+		// if server sent a failure after the single message, the failure takes precedence
+		return err
+	}
+	return nil
+}""", """	return nil
+}""", "R1", "only-eof-is-success", "pre-fix D13")
+v("C08", "no-probe-inproc", "inprocgrpc/in_process.go",
+  "	return s.recvMsgLocked(m, !s.responseStream)", "	return s.recvMsgLocked(m, false)", "R1", "probe-after-decode", "RecvMsg never probes for a second response")
+v("C08", "flag-from-clientstreams", "inprocgrpc/in_process.go",
+  "		responseStream: desc.ServerStreams,", "		responseStream: desc.ClientStreams,", "R1", "flag", "flag wired from the wrong descriptor field; bidi/unary agree so tests pass")
+v("C08", "http-drop-second-message-arm", "httpgrpc/client.go",
+  """				if ok {
+					// server tried to send >1 message!
+					cs.rMu.Lock()
+					defer cs.rMu.Unlock()
+					if cs.rErr == nil {
+						cs.rErr = status.Error(codes.Internal, "method should return 1 response message but server sent >1")
+						cs.done = true
+						// we won't be reading from the channel anymore, so we must
+						// cancel the context so that doHttpCall doesn't hang trying
+						// to write to channel
+						cs.cancel()
+					}
+					return cs.rErr
+				}
+""", """				if ok {
+					cs.cancel()
+					return nil
+				}
+""", "R1", "second-message-is-error", "second response silently dropped")
+v("C08", "http-failure-after-response-ignored", "httpgrpc/client.go",
+  """				if err != io.EOF {
+					return err
+				}
+			}
+		}
+		return nil""", """				_ = err
+			}
+		}
+		return nil""", "R1", "only-eof-is-success", "HTTP: failure after the single response reported as success")
+v("C08", "http-flag-from-clientstreams", "httpgrpc/client.go",
+  "cs := newClientStream(ctx, cancel, w, desc.ServerStreams, copts, ch.BaseURL)", "cs := newClientStream(ctx, cancel, w, desc.ClientStreams, copts, ch.BaseURL)", "R1", "flag", "flag wired from ClientStreams")
+v("C08", "unary-no-gotresponse-test", "inprocgrpc/in_process.go",
+  """				if gotResponse {
+					return status.Error(codes.Internal, "server sent unexpected response message")
+				}
+				gotResponse = true""", """				gotResponse = true""", "R2", "second-response-test", "second response overwrites the first")
+v("C08", "d4-closed-arm-eof", "inprocgrpc/in_process.go",
+  """				if !gotResponse {
+					return status.Error(codes.Internal, "server sent neither response message nor error")
+				}
+				return nil""", """				if !gotResponse {
+					return io.EOF
+				}
+				return nil""", "R2", "closed-without-response", "bare io.EOF for a missing response")
+v("C08", "unary-nil-response-unchecked", "inprocgrpc/in_process.go",
+  """			if isNil(v) {
+				err = status.Errorf(codes.Internal, "handler returned neither error nor response message")
+			} else {
+				_ = writeMessage(ctx, nil, ch, frame{data: v})
+			}""", """			_ = writeMessage(ctx, nil, ch, frame{data: v})""", "R2", "nil-response-check", "nil response sent as a (kind-unknown) frame")
+v("C08", "server-second-request-accepted", "httpgrpc/server.go",
+  """		_, err = readSizePreface(s.r.Body)
+		if err != io.EOF {
+			// client tried to send >1 message!
+			return status.Error(codes.InvalidArgument, "method accepts 1 request message but client sent >1")
+		}""", """		_, err = readSizePreface(s.r.Body)
+		if err == nil {
+			// client tried to send >1 message!
+			s.recvd++
+		}""", "R3", "second-request-is-error", "second request message tolerated")
+v("C08", "server-flag-serverstreams", "httpgrpc/server.go",
+  "str := &serverStream{r: r, w: w, respStream: desc.ClientStreams, codec: codec}", "str := &serverStream{r: r, w: w, respStream: desc.ServerStreams, codec: codec}", "R3", "flag", "server flag from the wrong field")
+v("C08", "server-later-calls-read", "httpgrpc/server.go",
+  """	if !s.respStream && s.recvd > 0 {
+		return io.EOF
+	}
+""", "", "R3", "later-calls-eof", "later RecvMsg on single-request method reads the body again")
+
 
 def main():
     if os.path.isdir(OUT):
